@@ -31,6 +31,8 @@ pub enum MountApi {
 pub struct UniCfg {
     /// E universe: every openat2 is answered ENOSYS from the first call on
     pub no_openat2: bool,
+    /// every renameat2 is answered ENOSYS (kernel before 3.15, seccomp profiles that do not know it)
+    pub no_renameat2: bool,
     pub mount_api: MountApi,
     /// false: statx never reports a mount id
     pub statx_mntid: bool,
@@ -45,7 +47,7 @@ pub struct UniCfg {
 
 impl Default for UniCfg {
     fn default() -> Self {
-        UniCfg { no_openat2: false, mount_api: MountApi::Ok, statx_mntid: true, proc_opts: String::new(), unpriv: false, psym: None, workers: 1 }
+        UniCfg { no_openat2: false, no_renameat2: false, mount_api: MountApi::Ok, statx_mntid: true, proc_opts: String::new(), unpriv: false, psym: None, workers: 1 }
     }
 }
 
@@ -73,15 +75,17 @@ impl UniCfg {
             if self.statx_mntid { "" } else { "+nomntid" },
             if self.proc_opts.is_empty() { String::new() } else { format!("+proc[{}]", self.proc_opts) },
             if self.unpriv { "+unpriv" } else { "" },
-            match self.psym {
-                Some(v) => format!("+psym{v}"),
-                None => String::new(),
+            match (self.psym, self.no_renameat2) {
+                (Some(v), r) => format!("+psym{v}{}", if r { "+norenameat2" } else { "" }),
+                (None, true) => "+norenameat2".to_string(),
+                (None, false) => String::new(),
             }
         )
     }
     pub fn to_json(&self) -> Value {
         json!({
             "openat2": !self.no_openat2,
+            "renameat2": !self.no_renameat2,
             "mount_api": match self.mount_api { MountApi::Ok => "ok", MountApi::Enosys => "enosys", MountApi::Eperm => "eperm", MountApi::NoFsopen => "nofsopen" },
             "statx_mnt_id": self.statx_mntid,
             "proc": self.proc_opts,
@@ -93,6 +97,7 @@ impl UniCfg {
     pub fn from_json(v: &Value) -> UniCfg {
         UniCfg {
             no_openat2: !v["openat2"].as_bool().unwrap_or(true),
+            no_renameat2: !v["renameat2"].as_bool().unwrap_or(true),
             mount_api: match v["mount_api"].as_str() {
                 Some("enosys") => MountApi::Enosys,
                 Some("eperm") => MountApi::Eperm,
@@ -1352,6 +1357,9 @@ impl Universe {
             let mut injected = false;
             // persistent configuration refusals
             if self.cfg.no_openat2 && nr == libc::SYS_openat2 {
+                answer = Answer::Fail(libc::ENOSYS);
+            }
+            if self.cfg.no_renameat2 && nr == libc::SYS_renameat2 && in_lib {
                 answer = Answer::Fail(libc::ENOSYS);
             }
             if matches!(nr, libc::SYS_fsopen | libc::SYS_fsmount | libc::SYS_open_tree | libc::SYS_fsconfig | libc::SYS_move_mount) {
